@@ -964,7 +964,7 @@ impl Prop for C20 {
         }
         x.count("probe.archive_verified");
 
-        // ---- a second builder at the same path, if refused, must leave the archive alone
+        // ---- a second builder at the same path, if refused without any fault in play, must leave the archive alone
         if case.hash_seed % 3 == 0 {
             x.begin_op(n_ops + 3);
             let r = x.sut(|| Builder::new_archive_unnamed(path.clone()).map(|_| ()));
@@ -975,6 +975,12 @@ impl Prop for C20 {
                 Ok(Ok(())) => {
                     // the archive now belongs to the second builder: nothing more to say about the first one
                     x.count("probe.second_builder_accepted");
+                    return;
+                }
+                // a builder that replaces existing files and then meets an injected fault has legitimately removed the
+                // old archive already: nothing to demand (and nothing more to read)
+                Ok(Err(_)) if x.hard_fired(n_ops + 3) || x.transient_fired(n_ops + 3) => {
+                    x.count("probe.second_builder_failed_under_fault");
                     return;
                 }
                 Ok(Err(_)) => {
@@ -1151,6 +1157,6 @@ impl Prop for C20 {
         vec!["libc read/write/open/close (fault plan applied, then the real call)", "wall clock (simulated, jumped by the schedule)", "OS randomness (seeded)"]
     }
     fn required_probes(&self, _t: Tier) -> Vec<&'static str> {
-        vec!["fault.enospc", "fault.eio_read", "fault.short_write", "fault.eintr_write", "probe.foreign_image_case", "probe.archive_verified", "probe.dir_route_verified", "probe.second_builder_refused", "probe.big_layer", "probe.builder_err_after_hard_fault", "probe.read_err_after_hard_fault", "sys.clock_gettime", "sys.write", "sys.read"]
+        vec!["fault.enospc", "fault.eio_read", "fault.short_write", "fault.eintr_write", "probe.foreign_image_case", "probe.archive_verified", "probe.dir_route_verified", "probe.big_layer", "probe.builder_err_after_hard_fault", "probe.read_err_after_hard_fault", "sys.clock_gettime", "sys.write", "sys.read"]
     }
 }
